@@ -98,33 +98,48 @@ Fixpoint ans_def (fuel : nat) (p q g h n : Z) (Cj : list Z) (res : list Z) : boo
     end
   end.
 
-Section View.
-  Variables (p q g h n t i : Z) (B : list bcast) (P : list (option (Z * Z))).
+(* the view functions are parameterised by the party's own complaint list `mine`, so that the executable dkg_view computes it once *)
+Section ViewM.
+  Variables (p q g h n t i : Z) (B : list bcast) (P : list (option (Z * Z))) (mine : list Z).
 
   Definition acc_of (j : Z) : list Z := accused n (b_compl (getB B j)).
   (* complaints_counter[w] as P_i computes it: its own complaints (:611-614) plus one per other party that named w *)
-  Definition cnt_view (w : Z) : Z :=
-    zsum (fun j => if j =? i then b2z (memz w (dkg_mine p q g h n i B P)) else b2z (memz w (acc_of j))) (parties n).
+  Definition cnt_view_m (w : Z) : Z :=
+    zsum (fun j => if j =? i then b2z (memz w mine) else b2z (memz w (acc_of j))) (parties n).
   Definition ans_of (j : Z) : bool * Z * Z :=
     ans_go (S (Z.to_nat n)) p q g h n i (viewC p q i j B) (b_ans (getB B j)) false
            (fst (rx_pair q (getP P j))) (snd (rx_pair q (getP P j))).
   (* step 1(d) / 2: who is disqualified *)
-  Definition disq_view (j : Z) : bool :=
-    if j =? i then t <? cnt_view j
-    else bad_stream n (b_compl (getB B j)) || (t <? cnt_view j) || fst (fst (ans_of j)).
-  Definition qual_view : list Z := filter (fun j => negb (disq_view j)) (parties n).
+  Definition disq_view_m (j : Z) : bool :=
+    if j =? i then t <? cnt_view_m j
+    else bad_stream n (b_compl (getB B j)) || (t <? cnt_view_m j) || fst (fst (ans_of j)).
+  Definition qual_view_m : list Z := filter (fun j => negb (disq_view_m j)) (parties n).
   (* the pair of dealer P_j that P_i holds at the end of the sharing phase *)
-  Definition final_pair (j : Z) : Z * Z :=
-    if (j =? i) || (t <? cnt_view j) then rx_pair q (getP P j)
+  Definition final_pair_m (j : Z) : Z * Z :=
+    if (j =? i) || (t <? cnt_view_m j) then rx_pair q (getP P j)
     else (snd (fst (ans_of j)), snd (ans_of j)).
-  Definition dkg_defined : bool :=
+  Definition dkg_defined_m : bool :=
     forallb (fun j => share_def p g h (viewC p q i j B) (i + 1) (fst (rx_pair q (getP P j))) (snd (rx_pair q (getP P j)))) (parties n) &&
-    forallb (fun j => (j =? i) || (t <? cnt_view j) || ans_def (S (Z.to_nat n)) p q g h n (viewC p q i j B) (b_ans (getB B j))) (parties n).
+    forallb (fun j => (j =? i) || (t <? cnt_view_m j) || ans_def (S (Z.to_nat n)) p q g h n (viewC p q i j B) (b_ans (getB B j))) (parties n).
   (* step 3: x_i, x'_i *)
-  Definition view_x : Z * Z :=
-    (sum_qual q qual_view (map (fun j => fst (final_pair j)) (parties n)),
-     sum_qual q qual_view (map (fun j => snd (final_pair j)) (parties n))).
-  Definition dkg_view : option (list Z * (Z * Z)) := if dkg_defined then Some (qual_view, view_x) else None.
+  Definition view_x_q (ql : list Z) : Z * Z :=
+    (sum_qual q ql (map (fun j => fst (final_pair_m j)) (parties n)),
+     sum_qual q ql (map (fun j => snd (final_pair_m j)) (parties n))).
+End ViewM.
+
+Section View.
+  Variables (p q g h n t i : Z) (B : list bcast) (P : list (option (Z * Z))).
+  Definition cnt_view (w : Z) : Z := cnt_view_m n i B (dkg_mine p q g h n i B P) w.
+  Definition disq_view (j : Z) : bool := disq_view_m p q g h n t i B P (dkg_mine p q g h n i B P) j.
+  Definition qual_view : list Z := qual_view_m p q g h n t i B P (dkg_mine p q g h n i B P).
+  Definition final_pair (j : Z) : Z * Z := final_pair_m p q g h n t i B P (dkg_mine p q g h n i B P) j.
+  Definition dkg_defined : bool := dkg_defined_m p q g h n t i B P (dkg_mine p q g h n i B P).
+  Definition view_x : Z * Z := view_x_q p q g h n t i B P (dkg_mine p q g h n i B P) qual_view.
+  Definition dkg_view : option (list Z * (Z * Z)) :=
+    let mine := dkg_mine p q g h n i B P in
+    if dkg_defined_m p q g h n t i B P mine
+    then (let ql := qual_view_m p q g h n t i B P mine in Some (ql, view_x_q p q g h n t i B P mine ql))
+    else None.
 End View.
 
 (* the qualified set as a function of the broadcast values alone (an observer applying the rules of step 1(d) to every party) *)
